@@ -239,6 +239,44 @@ static void handler(const Line& t, Out& o) {
     store(t, 3, res, g.seed);
     break; }
   case 13: { Reg& g = get(t.at(1)); if (!g.un) throw std::invalid_argument("not a union"); g.un->reset(); o.R(1); break; }
+  case 14: { // union object as a value: dst src kind (0 copy-construct, 1 copy-assign, 2 move-construct, 3 move-assign)
+    Reg& src = get(t.at(2)); if (!src.un) throw std::invalid_argument("not a union");
+    int kind = (int)t.at(3); long d = (long)t.at(1), sr = (long)t.at(2);
+    auto it = regs.find(d); bool dst_ok = it != regs.end() && it->second.un;
+    if ((kind == 1 || kind == 3) && !dst_ok) throw std::invalid_argument("assignment needs a union on the left");
+    if ((kind == 2 || kind == 3) && d == sr) throw std::invalid_argument("move onto itself");
+    if (kind == 0) { Reg g; g.seed = src.seed; g.un.reset(new theta_union(*src.un)); regs[d] = std::move(g); }
+    else if (kind == 1) { *it->second.un = *src.un; it->second.seed = src.seed; }
+    else if (kind == 2) { Reg g; g.seed = src.seed; g.un.reset(new theta_union(std::move(*src.un))); regs.erase(sr); regs[d] = std::move(g); }
+    else { *it->second.un = std::move(*src.un); it->second.seed = src.seed; regs.erase(sr); }
+    o.R(1); break; }
+  case 15: { // union r re-initialised by move-assignment from a fresh object: u = builder.build()
+    Reg& g = get(t.at(1)); if (!g.un) throw std::invalid_argument("not a union");
+    builder_args(t);
+    theta_union::builder b;
+    b.set_lg_k((uint8_t)t.at(2));
+    b.set_resize_factor((theta_constants::resize_factor)(int)t.at(3));
+    b.set_p(vh::bitsf(t.at(4)));
+    b.set_seed((uint64_t)t.at(5));
+    *g.un = b.build();
+    g.seed = (uint64_t)t.at(5);
+    o.R(1); break; }
+  case 24: { // intersection object as a value: dst src kind
+    Reg& src = get(t.at(2)); if (!src.in) throw std::invalid_argument("not an intersection");
+    int kind = (int)t.at(3); long d = (long)t.at(1), sr = (long)t.at(2);
+    auto it = regs.find(d); bool dst_ok = it != regs.end() && it->second.in;
+    if ((kind == 1 || kind == 3) && !dst_ok) throw std::invalid_argument("assignment needs an intersection on the left");
+    if ((kind == 2 || kind == 3) && d == sr) throw std::invalid_argument("move onto itself");
+    if (kind == 0) { Reg g; g.seed = src.seed; g.in.reset(new theta_intersection(*src.in)); regs[d] = std::move(g); }
+    else if (kind == 1) { *it->second.in = *src.in; it->second.seed = src.seed; }
+    else if (kind == 2) { Reg g; g.seed = src.seed; g.in.reset(new theta_intersection(std::move(*src.in))); regs.erase(sr); regs[d] = std::move(g); }
+    else { *it->second.in = std::move(*src.in); it->second.seed = src.seed; regs.erase(sr); }
+    o.R(1); break; }
+  case 25: { // intersection r re-initialised: in = theta_intersection(seed)
+    Reg& g = get(t.at(1)); if (!g.in) throw std::invalid_argument("not an intersection");
+    *g.in = theta_intersection((uint64_t)t.at(2));
+    g.seed = (uint64_t)t.at(2);
+    o.R(1); break; }
   case 20: { // new intersection r seed
     Reg g; g.seed = (uint64_t)t.at(2); g.in.reset(new theta_intersection((uint64_t)t.at(2)));
     regs[(long)t.at(1)] = std::move(g);
